@@ -516,7 +516,35 @@ def run_case(c):
                                            str(e).split("\n")[0][:80])))
     if err is None and k >= 2 and not probs and c["fam"] == "F2":
       probs += aliasing(g, after)
+    if err is None and k >= 2 and not probs and c["fam"] in ("F1", "F2", "F4"):
+      probs += tag_tables(g, m)
   return probs, info
+
+
+def tag_tables(g, m):
+  """The copies are lines of their own: a new tag on a copy says nothing
+  about a tag of that name on the original (nor on another copy)."""
+  probs = []
+  try:
+    o = g.segment(m)
+    copies = [s for s in g.segments if s is not o and
+              str(s.name).startswith(str(m) + "*")]
+    if not copies:
+      return probs
+    c = copies[0]
+    c.set("zq", 12)
+    o.set("zq", "s")
+    wo, wc = o.field_to_s("zq", tag=True), c.field_to_s("zq", tag=True)
+    c.delete("zq")
+    o.delete("zq")
+    if (wo, wc) != ("zq:Z:s", "zq:i:12"):
+      probs.append(("copy-shares-tag-table", "S", "zq = 12 on the copy and "
+                    "zq = 's' on the original are written {} / {}".format(
+                        wc, wo)))
+  except gfapy.Error as e:
+    probs.append(("copy-shares-tag-table", "S", "zq = 12 on a copy, then "
+                  "zq = 's' on the original: {}".format(type(e).__name__)))
+  return probs
 
 
 def aliasing(g, after):
